@@ -238,7 +238,7 @@ func c17Tier(tier string) (enum, pkg, lifecycle, seqs int) {
 	c17Once.Do(c17Enum)
 	enum, pkg = len(c17Calls), len(c17PkgCalls())
 	if tier == "thorough" {
-		return enum, pkg, 20000, 200000
+		return enum, pkg, 200000, 2000000
 	}
 	return enum, pkg, 20000, 30000
 }
